@@ -101,7 +101,9 @@ func (t *Tree) feedLeaf(leaf validator, jsonLex lexeme.LexEvent, indexOfLeaf int
 	if done { // validation of node completed
 		parent := leaf.parent()
 		leaf.setParent(nil) // remove the pointer to simplify garbage collection in the future
-		if parent == nil {
+		if parent == nil || t.hasLeaf(parent, indexOfLeaf) {
+			// Several alternatives (ex: @a | @b) accepted the same value: their
+			// common parent has to go on only once.
 			delete(t.leaves, indexOfLeaf)
 		} else {
 			t.leaves[indexOfLeaf] = parent // step back to parent
@@ -121,6 +123,16 @@ func (t *Tree) feedLeaf(leaf validator, jsonLex lexeme.LexEvent, indexOfLeaf int
 	}
 
 	return nil
+}
+
+// hasLeaf tells whether the validator is already a leaf under another index.
+func (t *Tree) hasLeaf(v validator, exceptIndex int) bool {
+	for i, leaf := range t.leaves {
+		if i != exceptIndex && leaf == v {
+			return true
+		}
+	}
+	return false
 }
 
 func (t *Tree) addLeaf(v validator) {
